@@ -129,8 +129,12 @@ LEVEL_TEXT = ("Lean theorems about a state-machine model of Cov (tag, _orb_frame
               "svHop_other; step_other for every operation of the model, step_allSep: pairwise separation is invariant in a process that takes no numpy views), new objects share nothing with old ones except a view its base's memory (newCov/copyCov/pickle/derive/mkView_spec), "
               "sv.cov = c seen through c is the single-object attach (attach_self), and an interleaved run looked at "
               "through one object is the single-object run of the targets addressed to it (hops_project); over real matrices: each covariance ends as Mt C0 Mt^T for its OWN "
-              "state, matrix and last target whatever happens to the others (heap_path_independent, two_states_same_epoch, derived_independent; derived_path_independent: e = k * c ends as k Mt C0 Mt^T for every target). The heap model runs against "
-              "the real classes on random interleaved operation sequences over several states sharing date and frame.")
+              "state, matrix and last target whatever happens to the others (heap_path_independent, two_states_same_epoch, derived_independent; derived_path_independent: e = k * c ends as k Mt C0 Mt^T for every target). "
+              "The state object the caller keeps is a cell of its own, distinct from the private copy a covariance holds: an in-place write to it (Heap.svSet: sv[i] = v, sv[:] = ..., sv *= k, sv.form = ..., sv.date = ...) "
+              "is observed by no covariance (svSet_view), commutes with every frame change (hop_svSet), and after any later sequence of frame changes every covariance is observed exactly as if the write had not "
+              "happened (svSet_invisible: a read after an in-place write to the state returns what it returns without the write). The heap model runs against "
+              "the real classes on random interleaved operation sequences over several states sharing date and frame, in-place writes to the states included; the comparison includes WHICH object each covariance "
+              "holds as its reference state (the first covariance holding the same private copy; never one of the caller's state objects).")
 LEVEL_NOTE = ("numpy views share memory with their base by definition (modelled, excluded from the separation theorems by hypothesis Sep); arrays made by numpy carry `_orb_frame` "
               "since c5f38c8 and convert like any covariance (derived_path_independent); the state machine of Cov is hand-written and tied by correspondence (the conversion matrices it is "
               "proved about are C02's translated model, tied to the code by C02's correspondence; the driver is fed the real matrices); through G50 the position-block spectrum is preserved to "
@@ -139,7 +143,7 @@ LEVEL_NOTE = ("numpy views share memory with their base by definition (modelled,
 TECHNIQUE = "Lean 4 proof (invariant over all hop sequences, Mathlib matrices; hypotheses discharged from C02's translated model of the conversions and the list model of to_local) + kernel-decided witnesses + differential correspondence of the same generic model on floats"
 TRUSTED = [
     "lean/BeyondVerif/Model/Cov.lean: hand-written model of Cov.frame setter / Cov.copy / StateVector.frame setter / StateVector.cov setter (attach), generic in the matrix type; tied to beyond/orbits/cov.py and statevector.py by the correspondence run (histories of cov hops, state hops, state copies, re-attachments; tags exact, matrices rtol 1e-9)",
-    "lean/BeyondVerif/Model/CovHeap.lean: hand-written heap model (which cells Cov.__new__, Cov.copy, __array_finalize__, __reduce__/__setstate__, StateVector.cov setter allocate or share; when the setter raises AttributeError); tied to the code by the correspondence op `heap` (all bookkeeping of all objects exact after every operation, values rtol 1e-9)",
+    "lean/BeyondVerif/Model/CovHeap.lean: hand-written heap model (which cells Cov.__new__, Cov.copy, __array_finalize__, __reduce__/__setstate__, StateVector.cov setter allocate or share; that a covariance never holds the caller's state object; when the setter raises AttributeError); tied to the code by the correspondence op `heap` (all bookkeeping of all objects exact after every operation, identity of the private copy each object holds exact, values rtol 1e-9)",
     "lean/templates/Local.tpl: hand-written to_qsw / to_tnw / expand, tied to beyond/frames/local.py by the correspondence op `tolocal`; the theorems are about its R instantiation read as a Mathlib matrix (Lemmas/CovBridge.lean: listMat, realLocal)",
     "C02's model of Orientation.convert_to (Model/FramesR.lean from templates/Frames.tpl, Generated/FrameFormulasR.lean translated from the Python source, Generated/Graphs.lean): the conversion matrices builtin_* are about; tied to the code by C02's own correspondence, not by C14's (C14's driver is handed the real matrices)",
     "Generated/Frames.lean: registry of built-in frames (name -> canonical name) and the orientation links with their rate flag, read from the live modules / the AST of orient.py each run; names_agree checks it against the copy C20 generates",
@@ -167,12 +171,15 @@ OPEN = [
     "the Cov state machine itself (Model/Cov.lean, Model/CovHeap.lean) is hand-written, not translated from the AST of cov.py: a changed branch of the setter is noticed by the correspondence, not by a regenerated Lean term",
 ]
 RULE = ("heap correspondence: 2-4 states (mostly sharing date and frame, sometimes equal), a covariance per state built from every kind of `values` (lists of ints/floats, int32/int64/"
-        "float32/float64 arrays, np.matrix, Fortran/strided arrays, a Cov), then 6-12 random operations on random objects: frame assignment, state frame assignment, k * c, c + d, "
+        "float32/float64 arrays, np.matrix, Fortran/strided arrays, a Cov), then 6-12 random operations on random objects: frame assignment, state frame assignment, in-place writes to a state (sv.form = cartesian/keplerian/spherical/cylindrical, sv[i] = v, sv[:] = x, sv *= k, sv.date = d), k * c, c + d, "
         "copy.copy/deepcopy/np.array(subok)/astype, views (c.T, c[:], ...), in-place *=, Cov.copy(frame), pickle round trip, Cov(sv, cov), sv.cov = c; after EVERY operation the tag, "
-        "`_orb_frame`, private copy and values of EVERY object and the frame of every state are compared with the compiled Lean heap model (bookkeeping and error kind exact, values rtol 1e-9). "
+        "`_orb_frame`, private copy (its values AND which object it is) and values of EVERY object and the frame of every state are compared with the compiled Lean heap model (bookkeeping and error kind exact, values rtol 1e-9). "
         "oracle, in this order (a widened sweep stops at the first failing input that is not a listed finding): directed = every frame that can be visited x QSW/TNW x (covariance alone / following its state / "
         "Cov.copy(frame), also QSW<->TNW) then back, from 2 random states; attached-later = a covariance built for a state, attached with sv.cov = c after sv.frame = g / to sv.copy(frame=g) / to a fresh "
         "state object / re-attached / to another state, then 1-6 cov and state frame changes aimed at the frame of the state and at QSW/TNW, against R C R^T from independent references; "
+        "standalone-state-mutated = a covariance made for a state given in any of the 10 forms through each of 8 routes (Cov(sv, ...), Cov(sv, cov), cov.orb = sv, Cov.copy, pickle, attached then detached, 1.0 * c, attached), "
+        "then the caller's state object is modified IN PLACE (sv.form, sv.frame, sv[i] = v, sv[:] = x, sv *= k, sv.date; one kind or a mix, also between two conversions) and the covariance converted to QSW/TNW and regular frames: "
+        "R C R^T for the position, velocity and date it was made for, and cov.orb still that cartesian state; "
         "interleaved hops of 2-6 covariances (built by Cov(), attach, copy, pickle, Cov(sv, cov), sv.copy) against R C R^T of their own state from independent "
         "QSW/TNW/Jacobian references, every other object bitwise unchanged after each hop; arrays derived by 11 numpy operations vs their source in both orders; the constructor for 14 kinds of values. "
         "correspondence: random histories (length 1-7) of cov hops / state hops / state copies / re-attachments (c = sv.cov; sv.cov = c after the state moved) over the 10 built-in frames + QSW/TNW from each non-rotating start frame, "
@@ -982,7 +989,7 @@ def gen_heap_case(rng, nops):
             # in-place write to a state the caller keeps using: other form, components, date (the orbit stays bound: every form exists)
             how = rng.choice(["form", "form", "set", "fill", "imul", "date"])
             if how == "form":
-                arg = rng.choice(SV_FORMS)
+                arg = rng.choice(HEAP_FORMS)
             elif how == "set":
                 q = rng.randrange(6)
                 arg = [q, -1.0 if q < 3 else rng.choice([-1.0, 0.5])]
@@ -1727,6 +1734,9 @@ def check_attached(out, scen):
 
 STANDALONE_VIA = ["cov", "from", "orb-setter", "copy", "pickle", "detached", "derived", "attached"]
 STANDALONE_MUT = ["form", "frame", "set", "fill", "imul", "date", "mixed"]
+# forms defined for every position/velocity with non-zero angular momentum: a state of the heap correspondence keeps its form while it is
+# re-framed, also into Earth-fixed frames where the relative velocity is easily hyperbolic (mean/eccentric anomalies are then NaN: C01's subject)
+HEAP_FORMS = ["cartesian", "keplerian", "spherical", "cylindrical"]
 SV_FORMS = ["cartesian", "keplerian", "keplerian_mean", "keplerian_eccentric", "keplerian_circular", "keplerian_mean_circular", "equinoctial", "spherical", "cylindrical", "tle"]
 
 
